@@ -124,7 +124,8 @@ Definition run_server (x : sx) : sx :=
    socket is: nothing (detect: before the acknowledgement), the CompileStarted frame only (preprocess, compile),
    or the whole exchange (none) — each followed by a clean EOF (observed: the killed server had read the whole
    request, so the kernel sends FIN, not RST).  Output: the client leg's five fields, then `ok` (object correct
-   whenever exit 0) and the outcome of a following compile with no server running. *)
+   whenever exit 0), the outcome of a following compile with no server running, and the same six fields for a
+   CONCURRENT client of the same server that was in its compiler run when the server died. *)
 Definition fin0 : finished :=
   {| f_retcode := Some 0; f_signal := None; f_stdout := []; f_stderr := []; f_color := 2 |}.
 
@@ -134,8 +135,14 @@ Definition run_kill (x : sx) : sx :=
       let ack := frame (encode_compile_response CompileStarted) in
       let bytes := if is_sym "none" ph then ack ++ frame (encode_finished fin0)
                    else if is_sym "detect" ph then [] else ack in
+      (* the concurrent client never has the switch on and is always caught after its acknowledgement *)
+      let other := match run_client (SL [SN 0; SB ack; sym "eof"; SN 0]) with
+                   | SL l => SL (l ++ [sym "ok"])
+                   | y => y
+                   end in
       match run_client (SL [ig; SB bytes; sym "eof"; SN 0]) with
-      | SL l => SL (l ++ [sym "ok"; if is_sym "none" ph then sym "not_applicable" else sym "restart_ok"])
+      | SL l => SL (l ++ [sym "ok"; if is_sym "none" ph then sym "not_applicable" else sym "restart_ok";
+                          if is_sym "none" ph then SL [] else other])
       | y => y
       end
   | _ => err "bad case"
